@@ -37,7 +37,7 @@ void harness(void) {
   sstr_sym(&m1, 1, L); sstr_sym(&m2, 1, L);
   if (t1 == CHILD_END) { __CPROVER_assume(m1.n == 1 && m1.u.buf[0] >= '0' && m1.u.buf[0] <= '9'); }
   if (t2 == CHILD_END) { __CPROVER_assume(m2.n == 1 && m2.u.buf[0] >= '0' && m2.u.buf[0] <= '9'); }
-  uint32_t res = in_u32(); uint32_t res0 = res; uint8_t text[16]; uint64_t tl = 0; uint8_t color = 0;
+  uint32_t res = in_u32(); uint32_t res0 = res; uint8_t text[8]; uint64_t tl = 0; uint8_t color = 0;
   k_write(t1, (uint8_t*)&m1);
 #if MODE == 1
   __CPROVER_assume(t1 != CHILD_END);
